@@ -252,3 +252,19 @@ func TestConjureLibConfigReload(t *testing.T) {
 	require.Equal(t, 2, len(rm.covertAllowlistSubnets))
 	require.Equal(t, 4, len(rm.PhantomSelector.Networks))
 }
+
+func TestConjureLibConfigResolveEmptyHost(t *testing.T) {
+	// A covert address without a host must never be accepted: net.Dial would
+	// connect ":port" to the station itself, whatever the blocklist says.
+	for _, conf := range []*RegConfig{
+		{},
+		{CovertBlocklistSubnets: []string{"127.0.0.0/8", "::1/128"}},
+		{CovertAllowlistSubnets: []string{"128.138.0.0/16"}},
+	} {
+		conf.ParseBlocklists()
+		for _, input := range []string{":80", ":0", "[]:443", ":"} {
+			output, _ := conf.ParseOrResolveBlocklisted(input)
+			require.Equal(t, "", output, "%q should be rejected", input)
+		}
+	}
+}
